@@ -27,6 +27,9 @@ CLAIMS = {
  "C18": dict(design="5/C18", tech=E1,
    text="Routing: every rule set of <=3 (quick) / <=4 rules with distinct keys x fallback x event (route code, test id) is run on the real StreamResultRouter with identity tokens in all other fields; start/stop: every sequence of <=5/6 steps over {startTestRun, stopTestRun, add_rule +/- do_start_stop_run} x fallback mode; StreamToQueue push followed by consuming-rule pop (also nested) restores the original route code. Exhaustive within the bound.",
    note="Finite alphabets of route codes/ids in E1; duplicate keys are documented as undefined and excluded."),
+ "C08": dict(design="5/C08", tech=E1,
+   text="Adapter stacks of depth 1..2 (ExtendedToOriginalDecorator, MultiTestResult fan-out 1/2, TestResultDecorator, Tagger) over six target flavours incl. TestByTestResult x three kinds of test object x one- and two-test histories (6 outcomes, exc_info or details, optional run boundaries/time/tags/stop/progress/done): each innermost target's startTest/outcome/stopTest sequence equals the history mapped through the documented degradation table, payload text survives, stop() reaches every target, TestByTestResult gets one callback per test with times/tags/details/status. Exhaustive within the bound.",
+   note="Details of success/unexpected-success cannot be carried by old-style protocols (not demanded); progress()/done() are called best-effort."),
  "C10": dict(design="5/C10", tech=E1 + "; symbolic chunk bytes and timestamps",
    text="Event sequences (accounting alphabet length <=4/5; other final statuses, id re-use, two routes; attachments with symbolic chunk bytes; tags with symbolic timestamps; a joint alphabet varying all groups) are fed to StreamToDict, StreamSummary and StreamToExtendedDecorator together and compared with a reference accounting model written from the statement; exhaustive within the bounds.",
    note="'fail' may land in errors or failures (exactly one entry); 'exists' through StreamToExtendedDecorator is discarded by design; payload bytes symbolic only for binary mime types."),
